@@ -81,7 +81,7 @@ theorem configure_ok (name cls : String) (ps : List Tok) (b : TermBody) (h : con
             · simp only [hp, if_true, Except.ok.injEq] at h
               subst h
               refine ⟨hs, ?_⟩
-              cases hasH <;> simp [ha]
+              cases hasH <;> simp
             · simp only [hp, if_false] at h
               cases hn : numsOf ps with
               | error e => rw [hn] at h; simp at h
@@ -383,7 +383,7 @@ theorem engineLoop_ok (ls : List Line) (comp : Option Key) (block : List Line) (
         cases hp : processBlock k block e with
         | error err => rw [hp] at h; simp at h
         | ok e1 => rw [hp] at h; exact ih _ _ e1 h (processBlock_ok k block e e1 hp he)
-    · simp only [hh, if_false] at h
+    · simp only [hh] at h
       exact ih _ _ e h he
 
 theorem printable_empty : Printable ({} : Engine) :=
